@@ -240,7 +240,7 @@ fn validate_node(d: &ArrayData, path: String) -> V {
                     if c.valid(i) {
                         for j in offs[i]..offs[i + 1] {
                             if !slot_valid(child, j) {
-                                return c.err(format!("non-nullable child has a null at child slot {} (list slot {})", j, i));
+                                return c.err(if matches!(child.data_type(), DataType::Null) { format!("non-nullable child of type Null has rows (child slot {}, list slot {})", j, i) } else { format!("non-nullable child has a null at child slot {} (list slot {})", j, i) });
                             }
                         }
                     }
@@ -286,7 +286,7 @@ fn validate_node(d: &ArrayData, path: String) -> V {
                 if !f.is_nullable() && check_nullability() && c.valid(i) {
                     for j in o as usize..(o + s) as usize {
                         if !slot_valid(child, j) {
-                            return c.err(format!("non-nullable child has a null at child slot {}", j));
+                            return c.err(if matches!(child.data_type(), DataType::Null) { format!("non-nullable child of type Null has rows (child slot {})", j) } else { format!("non-nullable child has a null at child slot {}", j) });
                         }
                     }
                 }
@@ -313,7 +313,7 @@ fn validate_node(d: &ArrayData, path: String) -> V {
                     if c.valid(i) {
                         for j in (off + i) * *n as usize..(off + i + 1) * *n as usize {
                             if !slot_valid(child, j) {
-                                return c.err(format!("non-nullable child has a null at child slot {}", j));
+                                return c.err(if matches!(child.data_type(), DataType::Null) { format!("non-nullable child of type Null has rows (child slot {})", j) } else { format!("non-nullable child has a null at child slot {}", j) });
                             }
                         }
                     }
